@@ -862,6 +862,27 @@ def replay_c_compile(d):
     return False, "compiles"
 
 
+def replay_c_compile_sources(d):
+    """Every .c file the generator emits is compiled to an object file as emitted (no harness), clang and gcc."""
+    import os
+
+    from .native import Scratch, generate_c, run
+
+    with Scratch() as dd:
+        try:
+            fcp, names = generate_c(d["schema_text"], dd)
+        except Exception as e:
+            return True, f"C generation failed: {type(e).__name__}: {e}"
+        for cc in ("clang-14", "gcc"):
+            for n in names:
+                if not n.endswith(".c"):
+                    continue
+                rc, so, se = run([cc, "-O0", "-w", "-I", dd, "-c", n, "-o", os.path.join(dd, "o.o")], cwd=dd)
+                if rc != 0:
+                    return True, f"{cc}: {n} does not compile (files: {sorted(names)}): {se[-300:]}"
+    return False, "every generated source compiles"
+
+
 def replay_c_encode(d):
     from .native import snake
 
